@@ -59,6 +59,9 @@ pub enum KOp {
     /// more(); after the first item a new call object is tried (refused: busy); the iteration is
     /// continued to its end; then the *refused* call object is issued again, this time with oneway()
     BusyRetryOneway { conts: u8, fin: RSpec },
+    /// more() with a typed reply struct: `conts` items that decode, then the final reply `fin` (which
+    /// may not decode), then the end
+    MoreTyped { conts: u8, fin: RSpec },
     /// upgrade(): like call(), the request carries the upgrade flag; judged like a call
     Upgrade(RSpec),
     /// a call whose parameters cannot be serialised (mode 0 call(), 1 more(), 2 oneway()): it fails
@@ -253,6 +256,9 @@ pub struct KObs {
     pub busy_seen: u64,
     pub eof_fired: bool,
     pub max_in_buffer_frames: usize,
+    /// (token, index of the reply within that request's reply group, offset in the reply stream at
+    /// which the reply's terminating NUL has been delivered)
+    pub frame_ends: Vec<(String, usize, usize)>,
 }
 
 type Results = Arc<StdMutex<Vec<OpRec>>>;
@@ -292,6 +298,48 @@ fn run_task(net: NetRef, conn: Arc<shuttle::sync::RwLock<Connection>>, task: usi
                     Err(e) => err_outcome(e),
                 };
                 rec(OpRec { task, op: oi, what: "call", item: 0, token: token.clone(), inv, ret, outcome });
+            }
+            KOp::MoreTyped { conts, fin } => {
+                let mut mc = MethodCall::<Value, TypedReply, varlink::Error>::new(
+                    conn.clone(),
+                    "org.sim.k.Do",
+                    json!({"token": token, "spec": {"conts": conts, "final": spec_json(fin), "err_at": Value::Null}}),
+                );
+                let inv = net.stamp(format!("inv {} more", token));
+                let started = mc.more().map(|_| ());
+                let ret = net.stamp(format!("ret {} more", token));
+                let ok = started.is_ok();
+                rec(OpRec {
+                    task,
+                    op: oi,
+                    what: "more",
+                    item: 0,
+                    token: token.clone(),
+                    inv,
+                    ret,
+                    outcome: match &started {
+                        Ok(()) => "Ok".into(),
+                        Err(e) => err_outcome(e),
+                    },
+                });
+                if !ok {
+                    continue;
+                }
+                for j in 0..(*conts as usize + 2) {
+                    let inv = net.stamp(format!("inv {} next{}", token, j));
+                    let it = mc.next();
+                    let ret = net.stamp(format!("ret {} next{}", token, j));
+                    match it {
+                        Some(r) => {
+                            let outcome = match &r {
+                                Ok(t) => format!("Ok:typed:{}", t.token),
+                                Err(e) => err_outcome(e),
+                            };
+                            rec(OpRec { task, op: oi, what: "item", item: j, token: token.clone(), inv, ret, outcome });
+                        }
+                        None => rec(OpRec { task, op: oi, what: "end", item: j, token: token.clone(), inv, ret, outcome: "None".into() }),
+                    }
+                }
             }
             KOp::Unser { mode } => {
                 let mut mc = MethodCall::<BadSer, Value, varlink::Error>::new(conn.clone(), "org.sim.k.Do", BadSer);
@@ -448,6 +496,8 @@ pub fn run_k(case: &KCase) -> (SimEnd, crate::sched::SimStats, KObs) {
         let mut idle_quiescent_turns = 0;
         let mut hang = false;
         let mut max_frames = 0usize;
+        let mut queued_total = 0usize;
+        let mut frame_ends: Vec<(String, usize, usize)> = Vec::new();
         loop {
             let eager = c.eager > 0 && rng.below(100) < c.eager as u64;
             if eager {
@@ -517,17 +567,21 @@ pub fn run_k(case: &KCase) -> (SimEnd, crate::sched::SimStats, KObs) {
                                 };
                                 let mut b = serde_json::to_vec(&fr).unwrap();
                                 b.push(0);
+                                queued_total += b.len();
+                                frame_ends.push((tok.clone(), i as usize, queued_total));
                                 pending.extend(b);
                             }
                             let mut b = serde_json::to_vec(&final_frame(&fin, &tok)).unwrap();
                             b.push(0);
+                            queued_total += b.len();
+                            frame_ends.push((tok.clone(), conts as usize, queued_total));
                             pending.extend(b);
                         }
                     }
                 }
             }
             max_frames = max_frames.max(frames_now);
-            if !eager && !inbuf.is_empty() && !closed {
+            if !eager && !inbuf.is_empty() && !closed && !c.cli_write_plan.contains(&u16::MAX) {
                 // at quiescence nobody is in the middle of a write
                 sv.push(viol(
                     "C07",
@@ -612,6 +666,7 @@ pub fn run_k(case: &KCase) -> (SimEnd, crate::sched::SimStats, KObs) {
         o.cli_read_timeouts = w.cnt.cli_read_timeout;
         o.eof_fired = closed && c.eof_after.is_some();
         o.max_in_buffer_frames = max_frames;
+        o.frame_ends = frame_ends;
     });
     let mut o = std::mem::take(&mut *out.lock().unwrap_or_else(|e| e.into_inner()));
     o.ops.sort_by_key(|r| (r.inv, r.ret));
@@ -629,7 +684,7 @@ pub fn judge_k(case: &KCase, end: &SimEnd, o: &KObs) -> (Vec<Violation>, bool) {
         .tasks
         .iter()
         .flatten()
-        .any(|op| matches!(op, KOp::More { .. } | KOp::MoreErr { .. } | KOp::MoreResend { .. }));
+        .any(|op| matches!(op, KOp::More { .. } | KOp::MoreErr { .. } | KOp::MoreResend { .. } | KOp::MoreTyped { .. } | KOp::BusyRetryOneway { .. }));
     match end {
         SimEnd::Completed => {}
         SimEnd::Panic(t) => {
@@ -660,7 +715,7 @@ pub fn judge_k(case: &KCase, end: &SimEnd, o: &KObs) -> (Vec<Violation>, bool) {
             "client threads were blocked with nothing in flight: no request at the server, no reply owed".into(),
         ));
     }
-    let faulty = case.eof_after.is_some() || case.cli_read_plan.contains(&u16::MAX);
+    let faulty = case.eof_after.is_some() || case.cli_read_plan.contains(&u16::MAX) || case.cli_write_plan.contains(&u16::MAX);
     // per task, walk the script and compare
     for (t, ops) in case.tasks.iter().enumerate() {
         let recs: Vec<&OpRec> = o.ops.iter().filter(|r| r.task == t).collect();
@@ -747,6 +802,41 @@ pub fn judge_k(case: &KCase, end: &SimEnd, o: &KObs) -> (Vec<Violation>, bool) {
                             "outcome",
                             format!("{} typed call(): server replied {} -> expected {}, got {}", token, final_frame(spec, &token), want, main.outcome),
                         ));
+                    }
+                }
+                KOp::MoreTyped { conts, fin } => {
+                    if main.outcome != "Ok" {
+                        if !(faulty && conn_level(&main.outcome)) {
+                            v.push(viol("C05", "client-more-start", format!("{} more() returned {}", token, main.outcome)));
+                        }
+                        continue;
+                    }
+                    for j in 0..(*conts as usize + 2) {
+                        let Some(it) = mine.iter().find(|r| (r.what == "item" || r.what == "end") && r.item == j) else {
+                            if !faulty && !o.hang {
+                                v.push(viol("C05", "client-iteration", format!("{}: next() #{} never returned", token, j)));
+                            }
+                            break;
+                        };
+                        let want = if j < *conts as usize {
+                            format!("Ok:typed:{}", token)
+                        } else if j == *conts as usize {
+                            expected_typed(fin, &token)
+                        } else {
+                            "None".to_string()
+                        };
+                        let ok = if want == "E:Serde" { it.outcome.starts_with("E:Serde") } else { it.outcome == want };
+                        if !ok {
+                            if faulty {
+                                break;
+                            }
+                            v.push(viol(
+                                "C05",
+                                "client-iteration",
+                                format!("{}: typed more() with {} continues replies then {:?}: item #{} expected {}, got {}", token, conts, fin, j, want, it.outcome),
+                            ));
+                            break;
+                        }
                     }
                 }
                 KOp::Unser { .. } => {
@@ -887,6 +977,39 @@ pub fn judge_k(case: &KCase, end: &SimEnd, o: &KObs) -> (Vec<Violation>, bool) {
                             }
                         }
                     }
+                }
+            }
+        }
+    }
+    // the server went away in mid-stream: a reply whose terminating NUL never arrived is no reply, it
+    // must not be handed to the caller as a result (or as that reply's error)
+    if let Some(lim) = case.eof_after {
+        for r in &o.ops {
+            let idx = match r.what {
+                "call" => o.frame_ends.iter().filter(|f| f.0 == r.token).map(|f| f.1).max(),
+                "item" => Some(r.item),
+                _ => None,
+            };
+            let Some(idx) = idx else { continue };
+            let from_reply = r.outcome.starts_with("Ok") || r.outcome.starts_with("E:Reply") || r.outcome.starts_with("E:InterfaceNotFound") || r.outcome.starts_with("E:MethodNot") || r.outcome.starts_with("E:InvalidParameter");
+            if !from_reply {
+                continue;
+            }
+            if let Some(f) = o.frame_ends.iter().find(|f| f.0 == r.token && f.1 == idx) {
+                if f.2 > lim {
+                    v.push(viol(
+                        "C07",
+                        "result-from-unterminated-reply",
+                        format!(
+                            "{} ({} #{}) returned {} although the server closed after {} reply bytes and this reply's terminating NUL would have been byte {}",
+                            r.token,
+                            r.what,
+                            idx,
+                            r.outcome.chars().take(80).collect::<String>(),
+                            lim,
+                            f.2
+                        ),
+                    ));
                 }
             }
         }
@@ -1092,6 +1215,7 @@ fn op_alphabet() -> Vec<KOp> {
         KOp::MoreResend { conts: 2, fin: RSpec::Ok },
         KOp::Unser { mode: 0 },
         KOp::Upgrade(RSpec::Ok),
+        KOp::MoreTyped { conts: 1, fin: RSpec::OkIllTyped },
         KOp::BusyRetryOneway { conts: 1, fin: RSpec::Ok },
     ]
 }
@@ -1100,6 +1224,7 @@ fn random_op(rng: &mut Rng, specs: &[RSpec], allow_abandon: bool) -> KOp {
     match rng.below(10) {
         0..=2 => KOp::Call(rng.pick(specs).clone()),
         3 if rng.chance(1, 4) => KOp::Upgrade(rng.pick(specs).clone()),
+        3 if rng.chance(1, 3) => KOp::MoreTyped { conts: rng.range(0, 4) as u8, fin: rng.pick(specs).clone() },
         3 => KOp::CallTyped(rng.pick(specs).clone()),
         4 => KOp::Oneway,
         5 => if rng.chance(1, 3) { KOp::OnewayResend } else { KOp::Oneway },
@@ -1277,7 +1402,40 @@ pub fn c07_plan(tier: Tier) -> Plan {
                             c.cli_read_plan[p] = u16::MAX;
                         }
                     }
-                    _ => {}
+                    _ => {
+                        // a send timeout set on the socket fires once, after a partial write
+                        if rng.chance(1, 2) {
+                            if c.cli_write_plan.is_empty() {
+                                c.cli_write_plan = (0..rng.range(2, 12)).map(|_| rng.range(1, 30) as u16).collect();
+                            }
+                            let p = rng.usize(c.cli_write_plan.len());
+                            c.cli_write_plan[p] = u16::MAX;
+                        }
+                    }
+                }
+                Case::K(c)
+            }),
+        });
+    }
+    // the server closes after exactly k reply bytes, for every k: in particular between the last
+    // byte of a reply's JSON text and its terminating NUL
+    {
+        let scripts: Vec<Vec<KOp>> = vec![
+            vec![KOp::Call(RSpec::Ok), KOp::Call(RSpec::Ok)],
+            vec![KOp::More { conts: 2, fin: RSpec::Ok, nexts: 4, nested: false }, KOp::Call(RSpec::Ok)],
+            vec![KOp::Call(RSpec::Err { name: 1, params: 0 }), KOp::More { conts: 1, fin: RSpec::Err { name: 4, params: 1 }, nexts: 3, nested: false }],
+            vec![KOp::CallTyped(RSpec::Ok), KOp::Oneway, KOp::Call(RSpec::Ok)],
+        ];
+        let per = 260u64;
+        spaces.push(Space {
+            name: "K.eof.every-offset",
+            size: scripts.len() as u64 * per,
+            exhaustive: true,
+            gen: Box::new(move |idx, seed| {
+                let mut c = base_case(vec![scripts[(idx / per) as usize].clone()], SchedCfg::uniform(seed));
+                c.eof_after = Some((idx % per) as usize);
+                if idx % 2 == 1 {
+                    c.srv_chunks = vec![7; 64];
                 }
                 Case::K(c)
             }),
@@ -1321,6 +1479,23 @@ pub fn c05_spaces(tier: Tier) -> Vec<Space> {
                         ops.push(KOp::Call(RSpec::Ok));
                     }
                 }
+                Case::K(base_case(vec![ops], SchedCfg::uniform(seed)))
+            }),
+        });
+    }
+    {
+        // the same through a typed reply struct: items that decode, then every final reply object
+        // (some of which do not decode), then a call that must find the connection free
+        let specs = all_specs();
+        let kmax = 4u64;
+        spaces.push(Space {
+            name: "K.stream.typed",
+            size: kmax * specs.len() as u64,
+            exhaustive: true,
+            gen: Box::new(move |idx, seed| {
+                let k = (idx % kmax) as u8;
+                let spec = specs[(idx / kmax) as usize].clone();
+                let ops = vec![KOp::MoreTyped { conts: k, fin: spec }, KOp::Call(RSpec::Ok)];
                 Case::K(base_case(vec![ops], SchedCfg::uniform(seed)))
             }),
         });
